@@ -56,7 +56,12 @@ def plain_event(e, thmap):
         from lemoncheesecake.testtree import BaseTest
         rank = getattr(n, "rank", 0)
         if not isinstance(n, BaseTest):
-            return rank
+            # suites (repair F24): (suite.rank, position among the parent's suites / given by the runner to a top-level suite)
+            if n.parent_suite:
+                spos = next((i for i, x in enumerate(n.parent_suite.get_suites()) if x is n), 0)
+            else:
+                spos = getattr(n, "position", 0)
+            return rank * (2 ** 20) + spos
         siblings = n.parent_suite.get_tests() if n.parent_suite else [n]
         pos = next((i for i, x in enumerate(siblings) if x is n), 0)
         return rank * (2 ** 20) + pos
